@@ -4,7 +4,7 @@ import z3
 
 from . import theory as T
 from .values import *
-from .interp import (Unsupported, PathEnd, BreakSig, ContinueSig, Frame, SpecCtx, VRange, VRat, GhostSeg, Event)
+from .interp import (RestartFunction, Unsupported, PathEnd, BreakSig, ContinueSig, Frame, SpecCtx, VRange, VRat, GhostSeg, Event)
 
 MUTATORS = {'append', 'extend', 'pop', 'insert', 'remove', 'clear', 'update', 'sort', 'reverse', 'setdefault',
             'popitem', 'add', 'discard'}
@@ -34,6 +34,7 @@ class Loops:
     def __init__(self, ctx):
         self.ctx = ctx
         self._ord = {}
+        self.extra_events = {}      # id(loop node) -> event names its body was SEEN to emit although the syntactic analysis missed them
 
     def ordinal(self, finfo, node):
         if finfo is None:
@@ -48,7 +49,44 @@ class Loops:
         if fi is None:
             return None, None
         k = self.ordinal(fi, node)
+        if k is None:
+            # a loop inside a nested function (a continuation defined in the method): keyed "<method>.<inner>", ordinals per inner def
+            for inner in ast.walk(fi.node):
+                if isinstance(inner, ast.FunctionDef) and inner is not fi.node:
+                    key = ('nested', id(inner))
+                    if key not in self._ord:
+                        self._ord[key] = loop_ordinals(inner)
+                    k2 = self._ord[key].get(id(node))
+                    if k2 is not None:
+                        return self.ctx.registry.loops.get((fi.module.relpath, '%s.%s' % (fi.qualname, inner.name), k2)), k2
         return self.ctx.registry.loops.get((fi.module.relpath, fi.qualname, k)), k
+
+    def run_body_checked(self, I, node, frame, events, run):
+        """Execute the loop body (via `run`) and check, on every way out of it, that each event it emitted had been summarised at
+        the cut.  The syntactic analysis (mod_set) cannot see events of constructors, of functions called by name, of inlined or
+        auto-inlined callees and of methods whose receiver it cannot resolve; an event that is emitted but not summarised keeps its
+        concrete pre-loop count in the assumed invariant, which silently restricts the proof to the first iteration.  Instead of
+        trusting the analysis: observe, add the missing names, and restart the function."""
+        before = set(id(e) for e in I.st.trace)
+        try:
+            return run()
+        finally:
+            seen = set(e.name for e in I.st.trace if id(e) not in before and isinstance(e, (Event, GhostSeg)))
+            missing = seen - set(events)
+            if missing:
+                self.extra_events.setdefault(id(node), set()).update(missing)
+                raise RestartFunction('loop body emitted events not summarised at the cut: %s' % sorted(missing), node)
+
+    def events_of_method(self, attr):
+        if not hasattr(self, '_ev_by_attr'):
+            m = {}
+            R = self.ctx.registry
+            for name, d in R.externs.items():
+                m.setdefault(name.rsplit('.', 1)[-1], set()).add(d.get('event', name))
+            for (file, qual), d in R.opaques.items():
+                m.setdefault(qual.rsplit('.', 1)[-1], set()).add(d.get('event', qual.rsplit('.', 1)[-1]))
+            self._ev_by_attr = m
+        return self._ev_by_attr.get(attr, set())
 
     # ---- syntactic modification analysis ------------------------------------------------------------
     def mod_set(self, I, body_nodes, frame):
@@ -137,8 +175,11 @@ class Loops:
                                 if isinstance(sub, ast.Call) and isinstance(sub.func, ast.Attribute) and sub.func.attr in MUTATORS:
                                     raise Unsupported('inlined callee %s mutates the heap inside a cut loop' % fi.qualname, n)
                     else:
-                        # unknown method on unknown receiver: opaque call -> event
+                        # unknown method on unknown receiver: opaque call -> event.  The event's run-time name depends on the
+                        # receiver's label ("<label>.<method>") or on an event= alias, which is not known syntactically: every
+                        # declared event that a method of this name can produce is summarised at the cut (over-approximation)
                         events.add(n.func.attr)
+                        events.update(self.events_of_method(n.func.attr))
             for ch in ast.iter_child_nodes(n):
                 if isinstance(ch, (ast.FunctionDef, ast.Lambda)):
                     continue
@@ -198,7 +239,7 @@ class Loops:
             if isinstance(v, VRef) and (I.is_list(v) or I.is_dict(v)):
                 hint = None
                 if isinstance(p, ast.Name) and p.id in ann:
-                    hint = {'ListInt': 'int', 'ListByte': 'int', 'ListBytes': 'seq', 'ListObj': 'obj', 'DictObjObj': 'objmap'}.get(ann[p.id].name)
+                    hint = {'ListInt': 'int', 'ListByte': 'int', 'ListBytes': 'seq', 'ListStr': 'seq', 'ListObj': 'obj', 'DictObjObj': 'objmap'}.get(ann[p.id].name)
                 I.havoc_ref(v, hint=hint)
             elif maybe:
                 continue
@@ -292,15 +333,16 @@ class Loops:
         for j, v in enumerate(invs):
             I.prove('%s:inv-entry#loop%d.%d' % (fq, k, j + 1), 'invariant', I.truthy(v), node)
         names, paths, fields, events = self.mod_set(I, node.body + [ast.Expr(node.test)], frame)
+        events = set(events) | self.extra_events.get(id(node), set())
         self.do_havoc(I, frame, spec, names, paths, fields, events)
         for v in self.eval_clauses(I, spec, frame, 'invariant'):
             I.assume(I.truthy(v))
         self.run_hints(I, spec, frame, None)
         var0 = self.eval_clauses(I, spec, frame, 'decreases')
-        c = I.truthy(I.ev(node.test, frame), node)
+        c = self.run_body_checked(I, node, frame, events, lambda: I.truthy(I.ev(node.test, frame), node))
         if I.branch(c):
             try:
-                I.ex_block(node.body, frame)
+                self.run_body_checked(I, node, frame, events, lambda: I.ex_block(node.body, frame))
             except ContinueSig:
                 pass
             except BreakSig:
@@ -383,6 +425,7 @@ class Loops:
         if isinstance(it, VRef) and any(True for p in paths if not isinstance(p, tuple) and isinstance(p, ast.Name)
                                         and frame.env.get(p.id) is it):
             raise Unsupported('loop mutates the list it iterates', node)
+        events = set(events) | self.extra_events.get(id(node), set())
         self.do_havoc(I, frame, spec, names | tnames, paths, fields, events, skip_names=tnames)
         kk = I.fresh_int('k')
         I.assume(z3.And(0 <= kk, kk <= n_iter))
@@ -392,7 +435,7 @@ class Loops:
         if I.branch(kk < n_iter):
             I.assign(node.target, elem(kk), frame)
             try:
-                I.ex_block(node.body, frame)
+                self.run_body_checked(I, node, frame, events, lambda: I.ex_block(node.body, frame))
             except ContinueSig:
                 pass
             except BreakSig:
